@@ -8,7 +8,9 @@ Oracle (independent of the model, exact rational arithmetic on the library's flo
   * a sub-region equals the block of the full volume that the request means in Python-slice terms and its
     affine maps index 0 to the position of that block's first voxel; out-of-range requests are refused;
   * every pyramid level covers the same physical extent (rows*spacing, columns*spacing).
-Tie T: T2 (`_standardize_slice_indices`), T3 (read-only, owned by C04), TC03pyr (pyramid level spacing).
+Tie T: T2 (`_standardize_slice_indices`), T3 (read-only, owned by C04), TC03pyr (pyramid level spacing and size),
+TC03stack (`_get_stacked_volume_geometry`: geometry slice, frame filter/slot, number of slices), TC03segvol / TC03imgvol
+(the slices `Segmentation.get_volume` / `Image.get_volume` take of geometry and pixel array in both branches).
 Tie C: Model/SegGeom.lean (`storeStack`, `readStack`, `getVolumeStack`, `tiledVolume`) against the stored
 attributes (L1, via pydicom) and the public read API (L0).
 """
@@ -20,7 +22,7 @@ from fractions import Fraction as F
 import numpy as np
 
 PROP = 'C03'
-TARGETS = ['T2', 'T3', 'TC03pyr']
+TARGETS = ['T2', 'T3', 'TC03pyr', 'TC03stack', 'TC03segvol', 'TC03imgvol']
 LEAN_MODULES = ['HdVerif.Props.C03']
 MODEL_MODULES = ['HdVerif.Model.SegGeom']
 NAMESPACE = 'HdVerif.C03'
@@ -406,8 +408,8 @@ def model_store_req(g, n0, included):
                            'p': [rstr(x) for x in g['p']], 'n0': n0, 'ks': list(included)})
 
 
-def model_read_req(positions, iop, ps, sbs, rows, cols, req=None, allow_missing=True):
-    args = {'allow_missing': allow_missing, 'pos': [[rstr(x) for x in p] for p in positions], 'iop': [rstr(x) for x in iop], 'ps': [rstr(x) for x in ps],
+def model_read_req(positions, iop, ps, sbs, rows, cols, req=None, allow_missing=True, kind='seg'):
+    args = {'kind': kind, 'allow_missing': allow_missing, 'pos': [[rstr(x) for x in p] for p in positions], 'iop': [rstr(x) for x in iop], 'ps': [rstr(x) for x in ps],
             'hint': None if sbs is None else rstr(sbs), 'rows': rows, 'cols': cols}
     req = req or {'as_indices': False}
     for nm in ('slice_start', 'slice_end', 'row_start', 'row_end', 'column_start', 'column_end'):
@@ -794,11 +796,11 @@ def check_img_case(ctx, descr, geo, shape, mk, reqs, pending):
     tiled = descr['kind'] == 'slide'
     if exact:
         if tiled:
-            reqs.append(model_tiled_req(planes[0][0], rowcos + colcos, ps, None, shape[1], shape[2], None))
+            reqs.append(model_tiled_req(planes[0][0], rowcos + colcos, ps, None, shape[1], shape[2], None, kind='image'))
         else:
             reqs.append(model_read_req([p for p, _ in planes], rowcos + colcos, ps,
                                        abs(F(descr['slice_spacing'])) if descr['kind'] == 'multiframe' else None, shape[1], shape[2],
-                                       allow_missing=False))
+                                       allow_missing=False, kind='image'))
         pending.append((dict(descr, what='Image.get_volume affine/shape', layer='L0'), impl_volume_obs(stv, v)))
     for j in range(3):
         req = rand_request(r, v.spatial_shape)
@@ -809,17 +811,17 @@ def check_img_case(ctx, descr, geo, shape, mk, reqs, pending):
                  source=descr['kind'])
         if exact:
             if tiled:
-                reqs.append(model_tiled_req(planes[0][0], rowcos + colcos, ps, None, shape[1], shape[2], req))
+                reqs.append(model_tiled_req(planes[0][0], rowcos + colcos, ps, None, shape[1], shape[2], req, kind='image'))
             else:
                 reqs.append(model_read_req([p for p, _ in planes], rowcos + colcos, ps,
                                            abs(F(descr['slice_spacing'])) if descr['kind'] == 'multiframe' else None,
-                                           shape[1], shape[2], req, allow_missing=False))
+                                           shape[1], shape[2], req, allow_missing=False, kind='image'))
             pending.append((dict(descr, request=req, what='Image.get_volume(sub) affine/shape', layer='L0'), impl_volume_obs(sts, sub)))
 
 
 # ---------------------------------------------------------------------------------------------- stream: tiled segmentations
-def model_tiled_req(origin, ios, ps, sbs, total_rows, total_cols, req):
-    args = {'origin': [rstr(x) for x in origin], 'ios': [rstr(x) for x in ios], 'ps': [rstr(x) for x in ps],
+def model_tiled_req(origin, ios, ps, sbs, total_rows, total_cols, req, kind='seg'):
+    args = {'kind': kind, 'origin': [rstr(x) for x in origin], 'ios': [rstr(x) for x in ios], 'ps': [rstr(x) for x in ps],
             'sbs': None if sbs is None else rstr(sbs), 'rows': total_rows, 'cols': total_cols}
     req = req or {'as_indices': False}
     for nm in ('slice_start', 'slice_end', 'row_start', 'row_end', 'column_start', 'column_end'):
